@@ -280,6 +280,13 @@ def pools():
     # all ordered quadruples over {rA, wA, wB}: has_run bookkeeping and early starts over three or four stages
     k4 = ["rA", "wA", "wB"]
     P["P8"] = [[a, b, c, d] for a in k4 for b in k4 for c in k4 for d in k4]
+    # tasks with several views / resource views: the claim verifier walks the new task's views in canonical order and must
+    # keep going past a component (resource) that the stage does not claim at all
+    km = ["wB", "rB", "wA", "wC", "rA,wB", "rA,rB", "wA,rB", "rB,wA", "rA,wC", "rB,wC", "oA,wB", "rA,rB,wC"]
+    P["PM"] = [[a, b] for a in km for b in km] + [
+        ["-/r=wR1", "-/r=rR0,wR1"], ["-/r=wR1", "-/r=rR0,rR1"], ["-/r=rR1", "-/r=rR0,wR1"], ["-/r=wR1", "-/r=wR1,rR0"], ["wA/r=wR1", "wB/r=rR0,wR1"],
+        ["wC", "wB", "rA,rB,wC"], ["wB", "wC/par", "rA,wB/par"],
+    ]
     P["PC"] = [
         ["wC", "rA", "wA"], ["wB,rC", "rA", "wA,wC"], ["wC/f=hA", "wC/f=nA", "rC"], ["wB", "wC", "rA", "wA"],
     ]
@@ -305,6 +312,7 @@ def main():
     # tables reached only through entry views (by the earlier or by the later task), ParSystem entry views,
     # and tasks that conflict on a component and on a resource at once
     quick += [("PQ", s) for s in P["PQ"]]
+    quick += [("PM", s) for s in (["wB", "rA,wB"], ["wB", "rA,rB"], ["wC", "rA,rB,wC"], ["rA,wC", "rB,wC"], ["rA,wB", "wB"], ["-/r=wR1", "-/r=rR0,wR1"], ["-/r=wR1", "-/r=rR0,rR1"], ["wC", "wB", "rA,rB,wC"])]
     quick += [("P8", s) for s in (["wA", "rA", "wA", "rA"], ["wB", "wA", "rA", "wA"], ["rA", "wA", "wB", "wA"])]
     qset = {tuple(s) for _, s in quick}
     extra = []
